@@ -11,6 +11,7 @@ histories), (c) the run-time monitor.  Nothing here is ever counted as proved.
 from __future__ import annotations
 
 import ast
+import collections
 import copy
 import itertools
 import sys
@@ -134,6 +135,9 @@ class GhostRewriter(ast.NodeTransformer):
             )
             call = ast.Call(func=lam, args=[ast.Starred(value=ast.Name(id="__snap__", ctx=ast.Load()), ctx=ast.Load())], keywords=[])
             return ast.copy_location(call, node)
+        if isinstance(node.func, ast.Name) and node.func.id in ("forall", "exists"):
+            # solver hints (pattern=, types=) mention the bound variables: meaningless natively
+            node.keywords = [k for k in node.keywords if k.arg not in ("pattern", "types")]
         self.generic_visit(node)
         # logic connectives are total in SMT; natively they must be lazy
         if isinstance(node.func, ast.Name) and node.func.id == "implies" and len(node.args) == 2:
@@ -248,6 +252,14 @@ class Violation(Exception):
         self.function, self.kind, self.clause, self.detail = function, kind, clause, detail
 
 
+def prefix_sums(xs):
+    """[0, x0, x0+x1, ...] as a total map (indices beyond the list repeat the total)"""
+    out = [0]
+    for x in xs:
+        out.append(out[-1] + x)
+    return collections.defaultdict(lambda: out[-1], enumerate(out))
+
+
 def checked_call(nc: NativeContracts, key, bound_method_or_func, self_obj, args: tuple, kwargs: dict, func_params, stats=None):
     """Call the real function under its sidecar contract.  Returns ('skip'|'ok', result) or raises Violation."""
     c = nc.reg.contracts[key]
@@ -277,6 +289,12 @@ def checked_call(nc: NativeContracts, key, bound_method_or_func, self_obj, args:
             names[k] = eval(nc.compile_clause(e, all_names), {**nc.env, **names, "__snap__": snap0})
         except Exception:
             return ("skip", None)
+    # ghost parameters: the native run uses the witness expression given in the contract (ghost_native)
+    for gp in getattr(c, "ghost_params", {}):
+        expr = getattr(c, "ghost_native", {}).get(gp)
+        if expr is None:
+            return ("skip", None)
+        names[gp] = eval(expr, {**nc.env, **names, "prefix_sums": prefix_sums})
     all_names = list(names)
     snap = copy.deepcopy(tuple(names[n] for n in all_names))
     invs = nc.invariants_for(self_obj) if (self_obj is not None and c.use_invariant) else []
